@@ -168,7 +168,9 @@ func checkBody(b *OVal, where string) string {
 func hostileDoc(r *Rng) []byte {
 	names := []string{"a b", "a\"b", "é", "\xff", "\xfe", "a\\b", "x /y", "/", "a\tb", "'", " ", "{x}", "a%2Fb", "_", "__",
 		// control characters and runes that Go's and JSON's string escapes treat differently
-		"a\x7fb", "a\x01b", "a\vb", "a\ab", "a\x1fb", "\U000e0001", "a b", "<&>"}
+		"a\x7fb", "a\x01b", "a\vb", "a\ab", "a\x1fb", "\U000e0001", "a b", "<&>",
+		// texts that SPELL an escape sequence (a backslash followed by letters): they must come out as themselves
+		"a\\u003cb", "\\u0026", "x\\u003e", "a\\nb", "\\\\u003c", "\\\"", "&lt;\\u0026&amp;", "\\u2028", "\\/", "a\\tb"}
 	pick :=func() string { return names[r.Intn(len(names))] }
 	var b strings.Builder
 	b.WriteString("JSIGHT 0.3\n")
